@@ -25,4 +25,4 @@ for key, c in REGISTRY.contracts.items():
         print(f"   {r['status']:10s} {r["backend"]:18s} {r['seconds']:7.2f}s  {ob.label}{flag}")
         if r["status"]=="failed" and r["model"]:
             print("      model:", {k:v for k,v in list(r["model"].items())[:25]})
-        if r["status"]=="undecided": print("      reason:", r["reason"])
+        if r["status"]=="undecided": print("      reason:", r["reason"]); print("      trace:", ob.trace[-6:])
